@@ -4,7 +4,7 @@
    (BC / B elements, 65536 / 256 when the counter starts at 0, overlapping ranges, final PC) is checked in the
    correspondence run by executing the real code to completion (up to 65,536 Steps) against the extracted model and,
    when something breaks, against a direct functional specification of the whole operation (checks/c09.py). *)
-From Z80V Require Import Proofs.SpecFacts Proofs.Block Proofs.Iter Proofs.BlockFacts.
+From Z80V Require Import Proofs.SpecFacts Proofs.Block Proofs.BlockFacts Proofs.Iter.
 
 Theorem C09_tie : forall cpu, WF cpu -> Step cpu = spec_step impl_unspec cpu.
 Proof. exact Step_ok. Qed.
